@@ -1,7 +1,7 @@
 (* SnapRead/Props.v — theorems for C05 (snapshot reads are stable and identical across all access paths). *)
 From Verif Require Import Base.Lex SnapRead.Model SnapRead.ModelRead SnapRead.ProofsOrd SnapRead.ProofsList
   SnapRead.ProofsScanF SnapRead.ProofsScanR SnapRead.ProofsScanLoop SnapRead.ProofsScanLoopR
-  SnapRead.ProofsCache SnapRead.ProofsRead SnapRead.ProofsTerm SnapRead.ProofsMove SnapRead.ProofsTop.
+  SnapRead.ProofsCache SnapRead.ProofsRead SnapRead.ProofsTerm SnapRead.ProofsMove SnapRead.ProofsReadThrough SnapRead.ProofsTop.
 
 (* For every truth (ascending keys), every snapshot ts, all bounds (empty = unbounded; even lo > hi),
    every batch size (0 and 1 are replaced by the default, sizes above 2^32-1 are capped, as in newScanner), key-only or not, EVERY
@@ -170,6 +170,22 @@ Theorem C05_ts_moves :
 Proof. exact C05_ts_moves_proof. Qed.
 Print Assumptions C05_ts_moves.
 
+(* The same over a store that honours committed_locks (TiKV, unistore: a lock whose transaction the
+   request names as committed is read THROUGH), with the asynchronous lock resolution of a read landing
+   or not ([lands], arbitrary): the snapshot object carries the ignored set AND the committed set; both
+   are statements about one timestamp and SetSnapshotTS drops both.  Every answer of every program of
+   Get / SetSnapshotTS (forward and BACKWARD) / finish events is read_at at the current version.
+   (Found here: the code kept the committed set across SetSnapshotTS; after a backward move below the
+   commit ts the value of the not yet committed-at-that-ts transaction was read — ex_backward_move.) *)
+Theorem C05_ts_moves_read_through :
+  forall (w : world) (ts : N) (fuel : nat) (lands : nat -> bool) (ops : list pop),
+    txs_ok (w_txns w) ts -> lock_fresh w ->
+    let Fin := fun k => final_ws (w_txns w) (k_get (w_keys w) k) in
+    let st := (ts, mkRst w [] []) in
+    q_envs fuel lands st ops -> q_right Fin fuel lands st ops.
+Proof. exact C05_ts_moves_read_through_proof. Qed.
+Print Assumptions C05_ts_moves_read_through.
+
 (* ---------------------------------------------------------------- non-vacuity *)
 (* a world with every kind of leftover lock; ts = 50 *)
 Definition ex_world : world :=
@@ -265,3 +281,31 @@ Example ex_world_scan :
   /\ wscan 12 10 3 false 50 ex_world (fun _ => None) (fun _ => [[100]]) [98] [] true
   = Done [([102], [8]); ([101], [6]); ([100], [5]); ([98], [3])].
 Proof. split; vm_compute; reflexivity. Qed.
+
+(* key a carries the secondary lock of transaction 20, committed at 30, below it the value [1] committed at
+   10; the resolution never lands.  At 50 the reader sees 20 committed and reads through: [2].  Moved BACK
+   to 25 (below the commit) it must answer [1]; moved forward again [2].  The second run is what the code
+   did before the fix (the committed set survives the move): it answers [2] at 25. *)
+Example ex_backward_move :
+  let run := fix run (ver : N) (st : rstate) (ops : list pop) : list (option (option value)) :=
+               match ops with [] => [] | o :: r => let '(a, (ver', st')) := q_step 10 (fun _ => false) ver st o in a :: run ver' st' r end in
+  let leaky := fix leaky (ver : N) (st : rstate) (ops : list pop) : list (option (option value)) :=
+               match ops with
+               | [] => []
+               | PSetTS ts :: r => None :: leaky ts (mkRst (st_w st) [] (st_cs st)) r
+               | o :: r => let '(a, (ver', st')) := q_step 10 (fun _ => false) ver st o in a :: leaky ver' st' r
+               end in
+  run 50 (mkRst ex_world [] []) [PGet [97]; PSetTS 25; PGet [97]; PSetTS 50; PGet [97]]
+    = [Some (Some [2]); None; Some (Some [1]); None; Some (Some [2])]
+  /\ leaky 50 (mkRst ex_world [] []) [PGet [97]; PSetTS 25; PGet [97]]
+    = [Some (Some [2]); None; Some (Some [2])].
+Proof. split; vm_compute; reflexivity. Qed.
+
+Example ex_world_lock_fresh : lock_fresh ex_world.
+Proof.
+  intros k l. cbn [ex_world w_keys k_get].
+  repeat (match goal with |- context [keqb ?a k] => destruct (keqb a k) end;
+          [cbn [ks_lock ks_ws]; intros H; inversion H; subst; cbn [In l_start]; intros c' o' Hin;
+           repeat (destruct Hin as [Hin|Hin]; [inversion Hin; subst; lia|]); destruct Hin|]).
+  cbn. discriminate.
+Qed.
